@@ -290,6 +290,50 @@ def client_part(ctx, rng, cases, worst, thorough):
             if idx in pick or idx >= len(cutsets) or (not ok and nbad < 30):
                 nbad += 0 if ok else 1
                 cases.append((F.client_case(len(ms) + 2, pre, chunks, calls, bytes(c.buf)), d))
+    # long reply streams (many pipelined messages, large arrays): reads that fill the 1024-byte request exactly, streams whose length is a
+    # multiple of the read size, bursts that end on / one byte around a read boundary
+    longs = []
+    for k in (1, 2):
+        ms, i = [], 0
+        while True:
+            ms += [("RReg", 3, i & 1), ("RDone", i)]
+            i += 1
+            L = sum(len(bytes(F.ret_obj(m))) for m in ms)
+            if L >= 1024 * k:
+                break
+        longs.append(ms)
+        longs.append(ms[:-2])
+    for n_arr in (120, 126, 127, 128, 250):
+        longs.append([("RArr", 5, [j & 7 for j in range(n_arr)]), ("RDone", 0)])
+        longs.append([("RReg", 1, 1), ("RArr", 5, [j & 7 for j in range(n_arr)]), ("RDone", 0), ("RReg", 2, 0), ("RDone", 1)])
+    # a subroutine that returns very many values before its completion reply (one library call has to consume them all)
+    longs.append([("RReg", j & 3, j & 1) for j in range(1200)] + [("RDone", 0)])
+    for ms in longs:
+        stream = b"".join(bytes(F.ret_obj(m)) for m in ms)
+        L = len(stream)
+        want = spec_calls(ms)
+        ids = [m[1] for m in ms if m[0] == "RDone"]
+        cuts = [(), (9,), (1024,), (1023,), (1025,), (9, 1033), (L - 1,), (L - 1024,) if L > 1024 else (5,), (512, 1536)]
+        cuts += [F.rand_cutset(rng, L) for _ in range(8 if thorough else 3)]
+        cuts.append(tuple(range(1, min(L, 1300))))          # one message over very many reads: a byte at a time
+        for cs in cuts:
+            bursts = F.cut(stream, sorted(set(c for c in cs if 0 < c < L)))
+            c = F.make_client(bursts, waiting=ids)
+            calls = F.client_session(c, len(ms) + 2)
+            served = list(c._socket.served)
+            ctx.count("client_runs_long_streams")
+            if any(len(x) == 1024 for x in served):
+                ctx.count("client_reads_filling_the_request_exactly")
+            ctx.case(("cli-long", L, tuple(len(x) for x in bursts)), nontrivial=True)
+            d = {"part": "client", "reply_stream_summary": "%d messages, %d bytes" % (len(ms), L), "bursts": [len(x) for x in bursts],
+                 "reads": [len(x) for x in served], "calls": repr(calls)[:600], "buf_after": bytes(c.buf).hex()[:80]}
+            ok = calls == want and bytes(c.buf) == b""
+            if not ok:
+                ctx.count("client_oracle_failures")
+                worst.add("client:replies-not-reassembled", (len(ms), L, len(bursts)),
+                          "%d replies (%d bytes) arriving in bursts of %r bytes: _handle_reply returned %s where every reply had been delivered"
+                          % (len(ms), L, [len(x) for x in bursts], repr([o for o, _ in calls][-2:])), d)
+            cases.append((F.client_case(len(ms) + 2, b"", served, calls, bytes(c.buf)), d))
     # malformed reply streams: unknown type byte, truncated message, negative array length -- model only
     for _ in range(60 if thorough else 20):
         ms = [F.rand_ret(rng, ("RReg", "RArr")) for _ in range(rng.randrange(0, 3))] + [("RDone", 0)]
